@@ -155,7 +155,33 @@ def remember(eng, st):
 EV = ('pop', 'draw', 'exhausted', 'as-event', 'lookup', 'add', 'peek', 'set', 'yield', 'silent', 'clear')
 
 
+def prologue(c, L):
+    """before the merge: the children are queued (once, into THE queue); if the earliest child does not start at
+    time zero a rest of exactly that time is yielded first and the clock starts there, otherwise it starts at 0"""
+    t = [e for e in c.trace if e[0] in EV + ('init-streams',)]
+    now = to_real(c.st.env['now'])
+    inits = [e for e in t if e[0] == 'init-streams']
+    if len(inits) != 1 or t[0] is not inits[0] or len(inits[0][1]) != 1 or inits[0][1][0].k != 'obj' \
+            or inits[0][1][0].oid != 'the-queue':
+        return z3.BoolVal(False)
+    rest = t[1:]
+    kinds = [e[0] for e in rest]
+    if kinds == []:
+        return now == 0                                       # no child at all
+    if kinds == ['peek']:
+        return z3.And(rest[0][1] <= 0, now == 0)              # earliest child starts at (or before) zero
+    if kinds == ['peek', 'silent', 'yield']:
+        peek, sil, y = rest
+        ok = len(sil[1]) == 2 and sil[1][0].k == 'real' and y[1] is sil[2]
+        if not ok:
+            return z3.BoolVal(False)
+        return z3.And(peek[1] > 0, sil[1][0].z == peek[1], now == peek[1])
+    return z3.BoolVal(False)
+
+
 def merge_pass(c, L):
+    if L.phase == 'entry':
+        return prologue(c, L)
     ev = since(c.trace)
     if not ev:
         return z3.BoolVal(True)
@@ -200,5 +226,4 @@ contract(F, 'Ppar.__embed__', props=('C14',), params={'self': 'self', 'inevent':
          policies={'sc3/seq/event.py::event': event_pol, 'sc3/seq/event.py::silent': silent_pol,
                    'Ppar._init_streams': init_streams},
          class_modules={'Ppar': F}, opts={'generator_trace': True}, native=False,
-         note='the part before the main loop (a first event not at time zero) is executed but has no obligation '
-              'of its own; that yielded deltas are non-negative follows from the queue order (C09)')
+         note='that yielded deltas are non-negative follows from the queue order (C09)')
